@@ -53,6 +53,7 @@ class Translator:
         self.symbol_hook = symbol_hook
         self.call_hook = call_hook
         self.all_positive = all_positive
+        self.attr_of_bound = False      # x.attr for an env-bound local x -> attr_<attr>(value of x)
         self._syms: Dict[str, sp.Symbol] = {}
 
     # ------------------------------------------------------------- symbols
@@ -98,6 +99,8 @@ class Translator:
         if d in ("np.inf", "numpy.inf", "math.inf"):
             return sp.oo
         if d is not None:
+            if d not in self.env and isinstance(n.value, ast.Name) and n.value.id in self.env and self.attr_of_bound:
+                return sp.Function("attr_" + n.attr)(self.env[n.value.id])
             return self.sym(d)
         base = self.tr(n.value)
         return sp.Function("attr_" + n.attr)(base)
@@ -155,6 +158,17 @@ class Translator:
             return sp.floor(a / b)
         if isinstance(op, ast.Mod):
             return sp.Mod(a, b)
+        if isinstance(op, (ast.BitAnd, ast.BitOr)):
+            B = sp.logic.boolalg.Boolean
+            if isinstance(a, B) and isinstance(b, B):
+                return sp.And(a, b) if isinstance(op, ast.BitAnd) else sp.Or(a, b)
+            return sp.Function("bitand" if isinstance(op, ast.BitAnd) else "bitor")(a, b)
+        if isinstance(op, ast.BitXor):
+            return sp.Function("bitxor")(a, b)
+        if isinstance(op, (ast.LShift, ast.RShift)):
+            return sp.Function("shift_" + type(op).__name__)(a, b)
+        if isinstance(op, ast.MatMult):
+            return sp.Function("matmul")(a, b)
         raise AnalysisError(f"binary operator not translatable: `{unparse(n)}`")
 
     def t_Compare(self, n):
@@ -265,6 +279,14 @@ class Translator:
             return sp.ceiling(A(0))
         if fn == "len" and args:
             return sp.Function("len")(A(0))
+        if fn == "slice" and isinstance(n.func, ast.Name) and 1 <= len(args) <= 3:
+            vals = [self.tr(a) for a in args]
+            NONE = sp.Symbol("None")
+            if len(vals) == 1:
+                vals = [NONE, vals[0], NONE]
+            elif len(vals) == 2:
+                vals = vals + [NONE]
+            return sp.Function("slice")(*vals)
         if fn == "logical_and":
             return sp.And(A(0), A(1))
         if fn == "logical_or":
